@@ -308,7 +308,7 @@ def mem_text(isa, m):
     return s
 
 
-def instantiate(rng, isa, form, pool, mem=None, regs=None, imm=None):
+def instantiate(rng, isa, form, pool, mem=None, regs=None, imm=None, imm_text=None):
     """Instance of a vocabulary form: text + what it reads and writes (architectural families / flags)."""
     texts = []
     reads, writes, wb = set(), set(), set()
@@ -327,7 +327,7 @@ def instantiate(rng, isa, form, pool, mem=None, regs=None, imm=None):
             texts.append(("%" if isa == "x86" else "") + r)
         elif o["kind"] == "imm":
             imm_val = imm if imm is not None else rng.choice([1, 2, 4, 8, 16, 24])
-            texts.append(("$%d" if isa == "x86" else "#%d") % imm_val)
+            texts.append(imm_text if imm_text is not None else ("$%d" if isa == "x86" else "#%d") % imm_val)
         else:
             mm = dict(mem) if mem is not None else rand_mem(rng, pool, isa)
             mm.setdefault("sym", None)
